@@ -192,10 +192,11 @@ Definition C09_rounding : Prop :=
 (* shapes of the rational built-in curves *)
 Definition C09_linear_shape : Prop :=
   forall (tau e e' : nat) (init : vec) (j : nat), 0 < tau -> (0 <= getv init j)%Qc -> j < length init ->
-  (e <= tau -> (0 <= getv (linear_rec tau e init) j)%Qc /\ (getv (linear_rec tau e init) j <= getv init j)%Qc) /\
+  (0 <= getv (linear_rec tau e init) j)%Qc /\ (getv (linear_rec tau e init) j <= getv init j)%Qc /\
   (e <= e' -> (getv (linear_rec tau e' init) j <= getv (linear_rec tau e init) j)%Qc) /\
   getv (linear_rec tau 0 init) j = getv init j /\
-  getv (linear_rec tau tau init) j = 0%Qc.
+  (tau <= e -> getv (linear_rec tau e init) j = 0%Qc) /\
+  (e <= tau -> getv (linear_rec tau e init) j = (getv init j * (1 - qnat e / qnat tau))%Qc).
 Definition C09_convexe_shape : Prop :=
   forall (tau e e' : nat) (init : vec) (j : nat), 0 < tau -> (0 <= getv init j)%Qc -> j < length init ->
   (0 <= getv (convexe_rec tau e init) j)%Qc /\ (getv (convexe_rec tau e init) j <= getv init j)%Qc /\
